@@ -95,7 +95,6 @@ package scheduler
 // resolving slot to the end of ITS epoch, for the validator the beacon node named, with that validator's key.
 //@ func (s *Scheduler) resolveSyncCommDuties
 //@ props C15
-//@ requires slot.SlotsPerEpoch > 0 && slot.Slot < 4611686018427387904
 //@ callreq s.setDutyDefinition: a1.Type == core.DutySyncContribution && a1.Slot >= slot.Slot && a1.Slot == sl.Slot && sl.SlotsPerEpoch == slot.SlotsPerEpoch && sl.Epoch() == slot.Epoch()
 //@ callreq s.setDutyDefinition: a2 == slot.Epoch() && res(1, vals.PubKeyFromIndex(syncCommDuty.ValidatorIndex)) && a3 == res(0, vals.PubKeyFromIndex(syncCommDuty.ValidatorIndex))
 //@ callreq s.setDutyDefinition: core.PubKeyFrom48Bytes(syncCommDuty.PubKey) == a3 && a4 == core.NewSyncCommitteeDefinition(syncCommDuty)
